@@ -20,7 +20,8 @@ CONSTANTS Signers,      \* signers that rules may name
           Pols,         \* policy contracts
           CTs,          \* context types, "D" included
           Batches,      \* context batches offered to a check: a (single context) or 10*a + b, over CtxNames
-          PolCfgs,      \* behaviours the policies may be configured with: 2*k + (1 if enforce refuses)
+          PolCfgs,      \* joint behaviours of the two policies: c1 + 1000 * c2 with c = 2*k + (1 if enforce refuses)
+          Supplied,     \* the signer sets offered to a check (subsets of Signers \cup Unknown)
           InitRules,    \* choices for the constructor: sets of signer and policy names
           RSets,        \* the same for add_rule; "dup" repeats the first signer in the list
           VUoffs,       \* valid_until offered: 99 = None, otherwise ledger-of-the-call + offset
@@ -30,7 +31,8 @@ CONSTANTS Signers,      \* signers that rules may name
           GenRules,     \* generator bound: add_rule is offered while fewer rules exist
           Depth, Now0,
           BUG,          \* "none" | "default_first" | "oldest_first" | "expiry_late" | "all_supplied" | "skip_auth"
-          Emit
+          Emit,         \* print behaviours (those ending in a check) for replay on the real contracts ...
+          EmitMod       \* ... one in EmitMod of them, chosen by an arithmetic digest of the behaviour
 
 SigOrder == <<"s1", "s2", "s3", "d", "u">>
 PolOrder == <<"p1", "p2", "p3">>
@@ -135,34 +137,38 @@ RuleOk(id, sup) == IF st.pls[id] = <<>> THEN Len(st.sgn[id]) = Cardinality(AuthO
                    ELSE \A p \in ToSet(st.pls[id]) : PolYes(p, id, sup)
 \* position of the first candidate that validates the context (0: none)
 Pos(cs, sup) == LET ok == {j \in DOMAIN cs : RuleOk(cs[j], sup)} IN IF ok = {} THEN 0 ELSE MinOf(ok)
-Pick(c, t, sup) == LET cs == Cand(c, t)  j == Pos(cs, sup) IN IF j = 0 THEN -1 ELSE cs[j]
 
 Call(p, id, c, sup, verdict) == [p |-> p, rule |-> id, ctx |-> c, sg |-> AuthOf(id, sup), ok |-> verdict]
-\* can_enforce calls made while validating context c: every rule tried, policies in order up to the first refusal
-CanCalls(c, t, sup) ==
-  LET cs == Cand(c, t)  j == Pos(cs, sup)  tried == {cs[i] : i \in 1 .. (IF j = 0 THEN Len(cs) ELSE j)} IN
+\* can_enforce calls made while validating context c over the candidates cs, the first validating one at
+\* position j: every rule tried, its policies in order up to the first refusal
+CanCalls(c, cs, j, sup) ==
+  LET tried == {cs[i] : i \in 1 .. (IF j = 0 THEN Len(cs) ELSE j)} IN
   UNION {LET pl == st.pls[id]
              no == {q \in DOMAIN pl : ~PolYes(pl[q], id, sup)}
              upto == IF no = {} THEN Len(pl) ELSE MinOf(no)
          IN {Call(pl[q], id, c, sup, PolYes(pl[q], id, sup)) : q \in 1 .. upto} : id \in tried}
 
 RECURSIVE EnfSeq(_, _, _, _)
-EnfSeq(j, cx, t, sup) ==
+EnfSeq(j, cx, pick, sup) ==
   IF j > Len(cx) THEN <<>>
-  ELSE LET id == Pick(cx[j], t, sup)  pl == st.pls[id] IN
-       [q \in 1 .. Len(pl) |-> Call(pl[q], id, cx[j], sup, ~st.pcfg[pl[q]].rf)] \o EnfSeq(j + 1, cx, t, sup)
+  ELSE LET id == pick[j]  pl == st.pls[id] IN
+       [q \in 1 .. Len(pl) |-> Call(pl[q], id, cx[j], sup, ~st.pcfg[pl[q]].rf)] \o EnfSeq(j + 1, cx, pick, sup)
 UpToRefusal(s) == LET no == {j \in DOMAIN s : ~s[j].ok} IN IF no = {} THEN s ELSE SubSeq(s, 1, MinOf(no))
 
 CheckRun(o, t) ==
   LET authOk == BUG = "skip_auth" \/ o.bad = {}
-      miss   == {j \in DOMAIN o.ctxs : Pick(o.ctxs[j], t, o.sigs) = -1}
+      cands  == [j \in DOMAIN o.ctxs |-> Cand(o.ctxs[j], t)]
+      pos    == [j \in DOMAIN o.ctxs |-> Pos(cands[j], o.sigs)]
+      pick   == [j \in DOMAIN o.ctxs |-> IF pos[j] = 0 THEN -1 ELSE cands[j][pos[j]]]
+      miss   == {j \in DOMAIN o.ctxs : pos[j] = 0}
       valid  == authOk /\ miss = {}
-      enf    == IF valid THEN UpToRefusal(EnfSeq(1, o.ctxs, t, o.sigs)) ELSE <<>>
+      enf    == IF valid THEN UpToRefusal(EnfSeq(1, o.ctxs, pick, o.sigs)) ELSE <<>>
       ok     == valid /\ \A j \in DOMAIN enf : enf[j].ok
       seen   == IF miss = {} THEN DOMAIN o.ctxs ELSE 1 .. MinOf(miss)
   IN [ok |-> ok,
-      log |-> [ver |-> {[s |-> s, ok |-> s \notin o.bad] : s \in {x \in o.sigs : ~IsDelegated(x)}},
-               can |-> IF authOk THEN UNION {CanCalls(o.ctxs[j], t, o.sigs) : j \in seen} ELSE {},
+      log |-> [ver |-> IF BUG = "skip_auth" THEN {}
+                       ELSE {[s |-> s, ok |-> s \notin o.bad] : s \in {x \in o.sigs : ~IsDelegated(x)}},
+               can |-> IF authOk THEN UNION {CanCalls(o.ctxs[j], cands[j], pos[j], o.sigs) : j \in seen} ELSE {},
                enf |-> enf,
                commit |-> [p \in Pols |-> IF ok THEN Cardinality({j \in DOMAIN enf : enf[j].p = p}) ELSE 0]]]
 
@@ -217,12 +223,15 @@ Step(o) ==
 Next ==
   LET n == Len(hist) IN
   \/ /\ n < Len(PolSeq)
-     /\ \E c \in PolCfgs : Step([Op("cfg") EXCEPT !.p = PolSeq[n + 1], !.k = c \div 2, !.rf = (c % 2 = 1)])
+     /\ \E cc \in PolCfgs :
+           LET c == IF n = 0 THEN cc % 1000 ELSE cc \div 1000 IN
+           /\ n = 1 => 2 * st.pcfg[PolSeq[1]].k + (IF st.pcfg[PolSeq[1]].rf THEN 1 ELSE 0) = cc % 1000
+           /\ Step([Op("cfg") EXCEPT !.p = PolSeq[n + 1], !.k = c \div 2, !.rf = (c % 2 = 1)])
   \/ /\ n = Len(PolSeq)
      /\ \E R \in InitRules : Step([Op("init") EXCEPT !.ct = "D", !.name = "multisig", !.signers = SignersOf(R), !.pols = PolsOf(R)])
   \/ /\ n > Len(PolSeq) /\ ~LastIsCheck
      /\ \/ \E dt \in DTs : \E o \in MgmtOps(dt) : Step(o)
-        \/ \E S \in SUBSET (Signers \cup Unknown) : \E B \in BadChoices(S) : \E b \in Batches :
+        \/ \E S \in Supplied : \E B \in BadChoices(S) : \E b \in Batches :
               \E dt \in (IF SomeExpiry THEN CheckDTs ELSE {0}) :
                  Step([Op("check") EXCEPT !.dt = dt, !.sigs = S, !.bad = B, !.ctxs = BatchOf(b)])
 
@@ -231,7 +240,19 @@ Spec == Init /\ [][Next]_vars
 \* Depth counts the management calls; cfg, init and the final check come on top
 Bound == Len(hist) <= Len(PolSeq) + 1 + Depth + (IF LastIsCheck THEN 1 ELSE 0)
 
-EmitReplay == (Emit /\ hist'[Len(hist')].op = "check") => PrintT(<<"REPLAY", ToJson(hist')>>)
+\* arithmetic digest of a behaviour (only used to thin out the printed behaviours deterministically)
+NameCode(x) == CASE x \in {"s1", "c1", "p1"} -> 1 [] x \in {"s2", "c2", "p2"} -> 2 [] x \in {"d", "w1"} -> 4
+                 [] x \in {"u", "v1"} -> 8 [] x = "D" -> 3 [] OTHER -> 0
+RECURSIVE SetCode(_)
+SetCode(S) == IF S = {} THEN 0 ELSE LET x == CHOOSE y \in S : TRUE IN NameCode(x) + SetCode(S \ {x})
+OpCode(h) == h.id * 7 + h.vu * 3 + h.dt * 5 + NameCode(h.ct) * 11 + SetCode(ToSet(h.signers)) * 13 + SetCode(h.pols) * 17
+             + NameCode(h.s) + NameCode(h.p) * 19 + h.k * 23 + SetCode(h.sigs) * 29 + SetCode(h.bad) * 31
+             + SetCode(ToSet(h.ctxs)) * 37 + Len(h.ctxs) * 41
+RECURSIVE HistCode(_, _)
+HistCode(h, i) == IF i > Len(h) THEN 0 ELSE i * OpCode(h[i]) + HistCode(h, i + 1)
+
+EmitReplay == (Emit /\ hist'[Len(hist')].op = "check" /\ HistCode(hist', 1) % EmitMod = 0)
+              => PrintT(<<"REPLAY", ToJson(hist')>>)
 
 (* what TLC checks ----------------------------------------------------------*)
 NoViolation == viol = {}
